@@ -749,6 +749,7 @@ fn mt101() -> Model {
         ("33B-in-B1", s(&["absent", "diff-ccy", "same-ccy"])),
         ("21R", s(&["absent", "present"])),
         ("32B-currencies", s(&["same", "differ"])),
+        ("transactions", tx_shapes()),
     ];
     let render = move |l: Labels| -> Value {
         let mut j = base.clone();
@@ -808,6 +809,7 @@ fn mt101() -> Model {
         if l[9] == "differ" {
             j["#"][1]["32B"] = fj("Field32B", "USD200,00");
         }
+        apply_tx_shape(&mut j, l[10], "21");
         j
     };
     let expected = |l: Labels| -> BTreeSet<String> {
@@ -858,11 +860,29 @@ fn in_b(l: &str) -> bool {
     l == "B1" || l == "A-and-B1"
 }
 
+/// Sequence-B shape: optionally a third transaction (a copy of the second, so that "every B"
+/// labels stay true) and / or reversed order, so that a violation sits in the first, a middle or the
+/// last occurrence. Every modelled rule is symmetric in the order of the transactions.
+fn tx_shapes() -> Vec<String> {
+    s(&["2", "3", "2-reversed", "3-reversed"])
+}
+fn apply_tx_shape(j: &mut Value, shape: &str, ref_key: &str) {
+    let arr = j["#"].as_array_mut().unwrap();
+    if shape.starts_with('3') {
+        let mut c = arr[arr.len() - 1].clone();
+        c[ref_key] = json!({"reference": "TX3"});
+        arr.push(c);
+    }
+    if shape.ends_with("reversed") {
+        arr.reverse();
+    }
+}
+
 fn direct_debit(mt: &'static str) -> Model {
     let is104 = mt == "104";
     let base = body_of(
         mt,
-        ":20:REF1\n:23E:AUTH\n:30:250615\n:50K:/ACC1\nCREDITOR NAME\n:21:TX1\n:32B:EUR100,\n:59:/ACC2\nDEBTOR ONE\n:21:TX2\n:32B:EUR200,\n:59:/ACC3\nDEBTOR TWO\n:32B:EUR300,",
+        ":20:REF1\n:23E:AUTH\n:30:250615\n:50K:/ACC1\nCREDITOR NAME\n:21:TX1\n:32B:EUR128,\n:59:/ACC2\nDEBTOR ONE\n:21:TX2\n:32B:EUR172,\n:59:/ACC3\nDEBTOR TWO\n:32B:EUR300,",
     );
     let mut a23 = s(&["AUTH", "absent", "RTND", "OTHR!", "AUTH!", "NAUT", "XXXX", "RFDD"]);
     if !is104 {
@@ -886,7 +906,7 @@ fn direct_debit(mt: &'static str) -> Model {
         ("72", s(&["absent", "present"])),
         ("71F", s(&["nowhere", "B1-only", "C-only", "B1-and-C", "B1-and-C-other-ccy", "B1-B2-other-ccy-and-C"])),
         ("71G", s(&["nowhere", "B1-only", "C-only", "B1-and-C", "B1-and-C-other-ccy", "B1-B2-other-ccy-and-C"])),
-        ("33B-in-B1", s(&["absent", "same-ccy-same-amount", "same-ccy-other-amount", "other-ccy"])),
+        ("33B-in-B1", s(&["absent", "same-ccy-same-amount", "same-ccy-other-amount", "other-ccy", "same-ccy-one-cent-more"])),
         ("36-in-B1", s(&["absent", "present"])),
         ("seqC/19", seqc),
         ("32B-currencies", s(&["same", "B2-differs", "C-differs"])),
@@ -894,8 +914,11 @@ fn direct_debit(mt: &'static str) -> Model {
     if is104 {
         dims.push(("21R", s(&["absent", "present"])));
     }
+    dims.push(("transactions", tx_shapes()));
+    let shape_at = dims.len() - 1;
     let render = move |l: Labels| -> Value {
         let mut j = base.clone();
+        let sum: f64 = if l[shape_at].starts_with('3') { 472.0 } else { 300.0 };
         let e23 = |lab: &str| -> Value {
             let (code, info) = match lab.strip_suffix('!') {
                 Some(c) => (c, Some("INFO")),
@@ -967,7 +990,8 @@ fn direct_debit(mt: &'static str) -> Model {
             }
         }
         match l[12] {
-            "same-ccy-same-amount" => j["#"][0]["33B"] = fj("Field33B", "EUR100,"),
+            "same-ccy-same-amount" => j["#"][0]["33B"] = fj("Field33B", "EUR128,"),
+            "same-ccy-one-cent-more" => j["#"][0]["33B"] = fj("Field33B", "EUR128,01"),
             "same-ccy-other-amount" => j["#"][0]["33B"] = fj("Field33B", "EUR90,"),
             "other-ccy" => j["#"][0]["33B"] = fj("Field33B", "USD110,"),
             _ => {}
@@ -976,13 +1000,13 @@ fn direct_debit(mt: &'static str) -> Model {
             j["#"][0]["36"] = fj("Field36", "1,1");
         }
         let (c, f19): (Option<f64>, Option<f64>) = match l[14] {
-            "C=sum,no-19" => (Some(300.0), None),
-            "C=sum,19=sum" => (Some(300.0), Some(300.0)),
-            "C>sum,no-19" => (Some(310.0), None),
-            "C>sum,19=sum" => (Some(310.0), Some(300.0)),
-            "C>sum,19=sum+10" => (Some(310.0), Some(310.0)),
-            "C>sum,19=sum+0.01" => (Some(310.0), Some(300.01)),
-            "C=sum+0.01,no-19" => (Some(300.01), None),
+            "C=sum,no-19" => (Some(sum), None),
+            "C=sum,19=sum" => (Some(sum), Some(sum)),
+            "C>sum,no-19" => (Some(sum + 10.0), None),
+            "C>sum,19=sum" => (Some(sum + 10.0), Some(sum)),
+            "C>sum,19=sum+10" => (Some(sum + 10.0), Some(sum + 10.0)),
+            "C>sum,19=sum+0.01" => (Some(sum + 10.0), Some(sum + 0.01)),
+            "C=sum+0.01,no-19" => (Some(sum + 0.01), None),
             _ => (None, None),
         };
         match c {
@@ -1000,6 +1024,7 @@ fn direct_debit(mt: &'static str) -> Model {
         if is104 && l[16] == "present" {
             j["21R"] = fj("Field21R", "CUSTREF1");
         }
+        apply_tx_shape(&mut j, l[shape_at], "21");
         j
     };
     let expected = move |l: Labels| -> BTreeSet<String> {
@@ -1172,7 +1197,10 @@ const M101_BAD: &[(&str, &[&str])] = &[
 ];
 
 fn mt101_codes() -> Model {
-    let base = body_of("101", ":20:REF1\n:28D:1/1\n:50H:/ACC1\nORDERING NAME\n:30:250615\n:21:TX1\n:32B:EUR100,00\n:57A:BANKFRPP\n:59:/ACC2\nBENEFICIARY ONE\n:71A:SHA");
+    let base = body_of(
+        "101",
+        ":20:REF1\n:28D:1/1\n:50H:/ACC1\nORDERING NAME\n:30:250615\n:21:TX1\n:32B:EUR100,00\n:57A:BANKFRPP\n:59:/ACC2\nBENEFICIARY ONE\n:71A:SHA\n:21:TX2\n:32B:EUR200,00\n:57A:BANKFRPP\n:59:/ACC3\nBENEFICIARY TWO\n:71A:SHA",
+    );
     let mut c23 = vec!["none".to_string()];
     for c in M101_CODES {
         c23.push(c.to_string());
@@ -1191,6 +1219,7 @@ fn mt101_codes() -> Model {
         ("33B", s(&["absent", "present"])),
         ("36", s(&["absent", "present"])),
         ("21F", s(&["absent", "present"])),
+        ("transactions", tx_shapes()),
     ];
     let render = move |l: Labels| -> Value {
         let mut j = base.clone();
@@ -1209,6 +1238,7 @@ fn mt101_codes() -> Model {
         if l[4] == "present" {
             j["#"][0]["21F"] = fj("Field21F", "FXDEAL1");
         }
+        apply_tx_shape(&mut j, l[5], "21");
         j
     };
     let expected = |l: Labels| -> BTreeSet<String> {
